@@ -101,7 +101,7 @@ pub fn esc(all: bool) -> BoxedStrategy<Esc> {
     }
     prop_oneof![
         4 => prop::sample::select(v),
-        1 => (1u16..128).prop_map(Esc::Ascii),
+        1 => (1u16..128).prop_filter("U+001E is the frame separator of the output protocol", |v| *v != 0x1e).prop_map(Esc::Ascii),
     ]
     .boxed()
 }
@@ -190,7 +190,7 @@ pub fn fmt_elements(supported_only: bool, allow_clear: bool, max: usize) -> Boxe
 
 /// A format that ends with the newline escape (keeps plain output mode) or not.
 pub fn fmt_elements_nl(supported_only: bool, max: usize) -> BoxedStrategy<Vec<FEl>> {
-    (fmt_elements(supported_only, false, max), any::<bool>())
+    (fmt_elements(supported_only, true, max), any::<bool>())
         .prop_map(|(mut v, nl)| {
             if nl {
                 v.push(FEl::E(Esc::Newline));
@@ -296,4 +296,56 @@ pub fn supported_leaf() -> BoxedStrategy<E> {
 /// the three abstract primaries of C01
 pub fn c01_leaf() -> BoxedStrategy<E> {
     prop_oneof![Just(E::T(Tst::True)), Just(E::T(Tst::Name("x".into()))), Just(E::A(Act::Print))].boxed()
+}
+
+// ---------------------------------------------------------------------------
+// text-path generators (C05, C06, C13): every keyword the parser knows
+
+/// strings for word-or-quoted-string arguments, including ones that need quotes
+pub fn text_string() -> BoxedStrategy<String> {
+    prop_oneof![
+        4 => user_string(StrKind::Name),
+        2 => user_string(StrKind::Ident),
+        2 => prop::sample::select(vec!["a b", "x)y", "it's", "say \"hi\"", "(", ")", "-print", "-o", "!", ",", "a\tb", "two  blanks", "a\nb", "'", "\"", "é x", "-", "%", "a(b", "$HOME", "~", ";#"]).prop_map(|s| s.to_string()),
+        1 => "[ -~]{1,8}",
+    ]
+    .prop_filter("representable as an argument word", |s| crate::render::representable(s))
+    .boxed()
+}
+
+pub fn text_test() -> BoxedStrategy<Tst> {
+    let s = text_string;
+    prop_oneof![
+        8 => supported_test(),
+        2 => s().prop_map(Tst::Name),
+        1 => s().prop_map(Tst::IName),
+        1 => s().prop_map(Tst::Path),
+        1 => s().prop_map(Tst::IPath),
+        1 => s().prop_map(Tst::Pool),
+        1 => s().prop_map(Tst::Xattr),
+        1 => (s(), s()).prop_map(|(a, b)| Tst::XattrMatch(a, b)),
+        3 => unsupported_test(),
+        1 => s().prop_map(|x| Tst::U(UTest::Regex(x))),
+    ]
+    .prop_filter("modes expressible as octal text", |t| !matches!(t, Tst::Perm(_, m) if *m > 0o7777))
+    .boxed()
+}
+
+pub fn text_action() -> BoxedStrategy<Act> {
+    prop_oneof![
+        6 => supported_action(),
+        2 => unsupported_action(),
+        1 => text_string().prop_map(Act::FPrint),
+        1 => (text_string(), fmt_elements(false, true, 6)).prop_map(|(f, e)| Act::FPrintf(f, e)),
+        2 => fmt_elements(false, true, 8).prop_map(Act::Printf),
+    ]
+    .prop_filter("format expressible as an argument word", |a| match a {
+        Act::Printf(f) | Act::FPrintf(_, f) => !f.is_empty() && crate::render::representable(&crate::render::fmt_text(f)),
+        _ => true,
+    })
+    .boxed()
+}
+
+pub fn text_leaf() -> BoxedStrategy<E> {
+    prop_oneof![3 => text_test().prop_map(E::T), 1 => text_action().prop_map(E::A)].boxed()
 }
